@@ -3,6 +3,7 @@ An expression/CFG fragment is folded with C integer semantics (LP64 widths taken
 table emitted by clang) for each value of a finite domain; unknown operands make the result Unknown.
 Nothing of the analysed program is executed: this is constant folding over every element of a
 finite partition of the input space."""
+import re
 from .expr import render
 from .model import CAST_KINDS, TRANSPARENT
 
@@ -20,6 +21,17 @@ class Thrown(Unknown):
 
 
 class Evaluator:
+    def note_absent(self, key):
+        """a read of a memory cell the model does not hold (element of an array / string / argv beyond what exists):
+        remembered on the outermost evaluator, the Unknown raised for it may be absorbed on the way up"""
+        if isinstance(key, str) and re.match(r"^[A-Za-z_@]\w*\[-?\d+\]$", key):
+            r = self
+            while getattr(r, "_parent", None) is not None:
+                r = r._parent
+            if not hasattr(r, "absent_reads"):
+                r.absent_reads = []
+            r.absent_reads.append(key)
+
     def note_null(self, text):
         """a member access through a pointer that folded to 0: remembered on the outermost evaluator, because the Unknown
         raised for it may be absorbed by an enclosing assignment (x = p->f only forgets x)"""
@@ -64,14 +76,43 @@ class Evaluator:
     def as_ptr(self, v):
         """a string literal value used as a pointer: its characters become memory of a fresh base"""
         if isinstance(v, tuple) and v and v[0] == "str" and isinstance(v[1], str):
-            base = "L%d" % (abs(hash(v[1])) % 100000)
-            if base + "[0]" not in self.env:
-                for i_, ch in enumerate(v[1]):
-                    o = ord(ch)
-                    self.env["%s[%d]" % (base, i_)] = o - 256 if o > 127 else o
-                self.env["%s[%d]" % (base, len(v[1]))] = 0
+            root = self
+            while getattr(root, "_parent", None) is not None:
+                root = root._parent
+            if not hasattr(root, "_strtab"):
+                root._strtab = {}
+            base = "L%d" % root._strtab.setdefault(v[1], len(root._strtab) + 1)      # one base per distinct text of this fold
+            e_ = self
+            while e_ is not None:
+                # (the characters are memory of the whole fold: a pointer into them may be returned to a caller)
+                if base + "[0]" not in e_.env:
+                    for i_, ch in enumerate(v[1]):
+                        o = ord(ch)
+                        e_.env["%s[%d]" % (base, i_)] = o - 256 if o > 127 else o
+                    e_.env["%s[%d]" % (base, len(v[1]))] = 0
+                e_ = getattr(e_, "_parent", None)
             return ("ptr", base, 0)
         return v
+
+    def cstring(self, v):
+        """the text of a C string value: a string value itself, or the cells from an element pointer up to the terminator;
+        a cell the model does not hold is a read outside the object"""
+        if isinstance(v, tuple) and v and v[0] == "str":
+            return v[1]
+        if isinstance(v, tuple) and v and v[0] == "ptr":
+            out, i_ = [], v[2]
+            while True:
+                key = "%s[%d]" % (v[1], i_)
+                if key not in self.env or not isinstance(self.env[key], int):
+                    raise Unknown("read outside the object: %s" % key)
+                c = self.env[key]
+                if c == 0:
+                    return "".join(out)
+                out.append(chr(c & 0xff))
+                i_ += 1
+                if len(out) > 4096:
+                    raise Unknown("unterminated string at %s" % v[1])
+        raise Unknown("not a string: %r" % (v,))
 
     def lkey(self, n):
         """key of an lvalue expression (see _lkey_raw); a by-reference parameter bound to a record object of the caller is
@@ -181,6 +222,7 @@ class Evaluator:
                             and (self.tinfo(n.get("ct")) or {}).get("bits") == 8:
                         return self.wrap(v, n.get("ct"))     # *(const unsigned char*)p / ((const unsigned char*)p)[i] read the byte as unsigned
                     return v
+                self.note_absent(key)
                 raise Unknown(key)
             if ck in ("IntegralCast", "NoOp", "IntegralToBoolean", "BooleanToSignedIntegral"):
                 v = self.ev(n["c"][0])
@@ -235,6 +277,7 @@ class Evaluator:
                 return self.env[key]
             if k == "MemberExpr" and (self.tinfo(n.get("ct")) or {}).get("k") == "array":
                 return ("ptr", key, 0)                  # a member array: its cells are env[name[i]]
+            self.note_absent(key)
             raise Unknown(key)
         if k == "UnaryOperator":
             op = n["op"]
@@ -243,6 +286,7 @@ class Evaluator:
                 if key in self.env:
                     v = self.env[key]
                     return self.wrap(v, n.get("ct")) if isinstance(v, int) else v
+                self.note_absent(key)
                 raise Unknown(key)
             if op in ("++", "--"):
                 key = self.lkey(n["c"][0])
@@ -452,6 +496,14 @@ class Evaluator:
                 self.argkeys = getattr(self, "argkeys", [])
                 self.argkeys.append((nm, keys))
                 hook = self.calls[nm]
+                if getattr(hook, "wants_ev", False):
+                    # designators of the arguments that are lvalues: a stub may store through a by-reference parameter
+                    self.last_arg_keys = []
+                    for a in f.args(n):
+                        try:
+                            self.last_arg_keys.append(self.lkey(a))
+                        except Unknown:
+                            self.last_arg_keys.append(None)
                 r = hook(self, *args) if getattr(hook, "wants_ev", False) else hook(*args)
                 if r is None:
                     raise Unknown(nm)
@@ -621,6 +673,8 @@ class Evaluator:
             self.trace.append(("construct " + (n.get("ct") or "?").replace("const ", ""), vals_, n))
             if len(vals_) == 1 and isinstance(vals_[0], tuple) and vals_[0][0] == "str":
                 return vals_[0]
+            if len(vals_) == 1 and isinstance(vals_[0], tuple) and vals_[0][0] == "ptr" and (n.get("ct") or "").replace("const ", "").strip() == "SimpleString":
+                return ("str", self.cstring(vals_[0]))      # SimpleString(const char*) copies the text up to the terminator
             raise Unknown(k)
         raise Unknown(k)
 
